@@ -43,6 +43,14 @@ def _find_ite(t):
 
 def _lift(t, budget):
     if head(t) == "ite":
+        inner = _find_ite(t[1])
+        if inner is not None:
+            budget[0] -= 1
+            if budget[0] < 0:
+                raise AnalysisBroken("decision tree too large while lifting conditionals")
+            a = ("ite", subst(t[1], {inner: inner[2]}), t[2], t[3])
+            b = ("ite", subst(t[1], {inner: inner[3]}), t[2], t[3])
+            return ("ite", inner[1], _lift(a, budget), _lift(b, budget))
         return ("ite", t[1], _lift(t[2], budget), _lift(t[3], budget))
     inner = _find_ite(t)
     if inner is None:
@@ -252,3 +260,34 @@ def std_rewrites(ident=("numpy.asarray", "numpy.array", "pyrepseq.util.ensure_nu
         return t
 
     return [drop_ident, unfloat, canon_call, tuple_of_items, dict_rewrite, filter_idempotent, canon_binders]
+
+
+# --------------------------------------------------------------------------- loop-closed terms
+def close_loops(summary, term, _seen=None):
+    """Replace loop-id carrying terms by self-contained folds so that two summaries can be compared structurally:
+      ('after', lid, name) -> ('fold', kind, iterable, init, step)   with ('phi', lid, n) -> ('acc', k) and the loop element -> ('elem', iterable)
+      ('iter', lid, it)    -> ('elem', it)
+    Accumulator indices k are positions in the sorted list of the loop's carried names that the step actually mentions."""
+    seen = _seen or set()
+
+    def rw(t):
+        h = head(t)
+        if h == "after":
+            lp = summary.loops.get(t[1])
+            name = t[2]
+            if lp is None or not isinstance(name, str) or (t[1], name) in seen:
+                return t
+            init = lp.init.get(name, ("undef", name))
+            upd = lp.update.get(name, ("undef", name))
+            used = [n for n in sorted(lp.update) if any(x == ("phi", lp.lid, n) for x in walk(upd))]
+            order = [name] + [n for n in used if n != name]
+            m = {("phi", lp.lid, n): ("acc", i) for i, n in enumerate(order)}
+            it = lp.iterable
+            body = subst(upd, m)
+            seen2 = seen | {(t[1], name)}
+            extra = tuple((close_loops(summary, lp.init.get(n, ("undef", n)), seen2), close_loops(summary, subst(lp.update.get(n), m), seen2)) for n in order[1:])
+            return ("fold", lp.kind, close_loops(summary, it, seen2), close_loops(summary, init, seen2), close_loops(summary, body, seen2), extra)
+        if h == "iter":
+            return ("elem", t[2])
+        return t
+    return rewrite(term, rw)
